@@ -977,6 +977,8 @@ class BaseDAGExecution(Generic[P, RVDAG]):
 
     xn_dict: Dict[Identifier, ExecNode] = field(init=False, default_factory=dict)
     executed: bool = False
+    # the scheduler consumes the graph: a run that failed half way can not be resumed nor restarted
+    started: bool = field(init=False, default=False)
     cached_nodes: List[ExecNode] = field(init=False, default_factory=list)
 
     profiles: Dict[Identifier, Profile] = field(init=False, default_factory=dict)
@@ -1057,8 +1059,9 @@ class BaseDAGExecution(Generic[P, RVDAG]):
 
     def _pre_call(self) -> StrictDict[Identifier, Any]:
         """Returns the results the execution starts from (the DAG's, enriched with the cached ones)."""
-        if self.executed:
+        if self.executed or self.started:
             raise TawaziUsageError("DAGExecution object has already been executed.")
+        self.started = True
 
         results = self.results
         if self.from_cache:
